@@ -21,6 +21,8 @@ def model_op(o, node):
         return {"node": node, "op": "noop", "k": "", "v": "", "ver": 0, "n": 0}
     # a user record / a permission list is an unversioned write of a `$$' key (applied locally, forwarded by a
     # secondary, re-emitted as `replicate <db> <key> -1 <value>')
+    if kind == "snapshot" and not op.get("reclaim") and op.get("names") == ["d"]:
+        return {"node": node, "op": "snapshot", "k": "", "v": "", "ver": 0, "n": 0}
     if kind == "create-user":
         return {"node": node, "op": "set", "k": "$$user_" + op["u"], "v": op.get("v", ""), "ver": -1, "n": 0}
     if kind == "set-permissions":
